@@ -64,6 +64,7 @@ fn main() {
             if unit == "eval" {
                 let (bad, msg) = match v["function"].as_str().unwrap_or("") {
                     "cost_table" => eval::replay_cost(&v["input"]),
+                    "tree_hash_precomputed" => eval::replay_precomputed(&v["input"]),
                     _ => (false, "unknown eval replay".to_string()),
                 };
                 println!("{} {msg}", if bad { "DISAGREE" } else { "AGREE" });
